@@ -73,7 +73,9 @@ def gen(rng, tier):
     if prog["mode"] == "control" and rng.random() < 0.3:
         from simkit.scriptprog import DT_CHOICES_NS
         prog["inject"] = [{"after": rng.choice([0, 1, 1, 2, 3, 5, 8, 13]),
-                           "events": [{"dt": rng.choice(DT_CHOICES_NS), "to": rng.randrange(prog["n_entities"]),
+                           # events cancelled from outside during the pause (registry positions, mod its length then)
+                           "cancel": [rng.randrange(1000) for _ in range(rng.choice([0, 0, 0, 1, 2]))],
+                           "events": [{"dt": rng.choice(DT_CHOICES_NS + [-1, -1_000]), "to": rng.randrange(prog["n_entities"]),
                                        "k": rng.randrange(prog["n_kinds"]), "daemon": rng.random() < 0.1}
                                       for _ in range(rng.randint(1, 3))]}
                           for _ in range(rng.randint(1, 3))]
@@ -112,7 +114,7 @@ def _validate(sc):
     if sc.get("inject") and sc.get("mode") != "control":
         raise InvalidScenario("injection needs the control surface")
     for inj in sc.get("inject", []):
-        if inj["after"] < 0 or any(not ok_emit(e) or "prep" in e or e["dt"] < 0 for e in inj["events"]):
+        if inj["after"] < 0 or any(not ok_emit(e) or "prep" in e for e in inj["events"]):
             raise InvalidScenario("bad injection")
     st = sc.get("start", 0)
     if st < 0 or (sc.get("end") is not None and sc["end"] < st):
@@ -154,11 +156,14 @@ def run_engine(sc):
                 sim.schedule(e)
     pr.apply_late_cancels()
     pr.injected = {}
+    pr.injected_cancels = {}
     if sc.get("mode") == "control" and sc.get("inject"):
         ctl = sim.control
         plan: dict[int, list] = {}
+        cancels: dict[int, list] = {}
         for inj in sc["inject"]:
             plan.setdefault(inj["after"], []).extend(inj["events"])
+            cancels.setdefault(inj["after"], []).extend(inj.get("cancel", []))
         n = [0]
 
         def hook(ev):
@@ -176,8 +181,12 @@ def run_engine(sc):
             if guard > 100:
                 raise RuntimeError("harness: paused more often than pauses were requested")
             emits = plan.pop(n[0], None)
-            if emits:
+            if emits is not None:
                 now = pr.entities[0].now.nanoseconds
+                for idx in cancels.get(n[0], []):
+                    if pr.registry:
+                        pr.registry[idx % len(pr.registry)].cancel()
+                pr.injected_cancels[n[0]] = cancels.get(n[0], [])
                 evs = [pr.new_event(now + e["dt"], e["to"], e["k"], e.get("daemon", False)) for e in emits]
                 pr.injected[n[0]] = emits
                 if len(evs) % 2:
@@ -260,7 +269,7 @@ def run(sc):
         if repo.REPO in inner.filename:
             return result(sig=f"exception/{type(exc).__name__}/{inner.name}", msg=repr(exc))
         raise
-    ref = RefEngine(sc, injections=pr.injected)
+    ref = RefEngine(sc, injections=pr.injected, injected_cancels=pr.injected_cancels)
     ref.run()
     sig, msg = compare(sc, pr, summary, ref)
     h = hashlib.blake2b(repr(pr.log).encode(), digest_size=12).hexdigest()
